@@ -138,6 +138,7 @@ func faultScenario() (prefix []Op, targets []faultTarget) {
 
 type faultRun struct {
 	stmts     int
+	txOpen    bool
 	lost      string
 	err       error
 	retryErr  error
@@ -191,6 +192,12 @@ func runFaulted(t *testing.T, seed int64, prefix []Op, target Op, mode string, k
 		w.Ctx = context.Background()
 		fr.err = res.Err
 		fr.lost = res.Lost
+		fr.txOpen = !w.Ctl.TxIdle()
+		if fr.txOpen {
+			// nothing else can be done with this database: the write lock is held
+			fr.after = fr.before
+			return
+		}
 		if strings.HasPrefix(res.Resp, "E:") && res.Err == nil {
 			fr.err = fmt.Errorf("%s", res.Resp)
 		}
@@ -334,6 +341,10 @@ func TestC09(t *testing.T) {
 				}
 				if mode == "cancel-before-commit" && fr1.err == nil && fr1.canon == clean.canon {
 					continue // not an operation run through the harness's closure: nothing was cancelled
+				}
+				if fr1.txOpen {
+					violate("tx-left-open", "the failed operation returned with its transaction neither committed nor rolled back (it keeps the connection and the write lock: every later writer fails)", tg, mode, k)
+					return false
 				}
 				if fr1.err == nil && fr1.lost != "" {
 					violate("no-error", "the operation reported success although its transaction was rolled back: "+fr1.lost, tg, mode, k)
